@@ -122,6 +122,24 @@ def amFlatten (x : Tens α) : Tens α := if Params.amFlattenReplicaMajor then re
 /-- dynamic embeddings: `PrecomputedCache.batchify` = `batchify(emb, num_starts)` for every tensor field -/
 def cacheBatchify (c : Tens α) (S : Nat) : Tens α := if Params.amCacheUsesBatchify then batchify c [S] else c
 
+/-- a multi-start replication site of the policy zoo: `batchify(x, S)` when the (regenerated) token says so;
+an instance-major form (`repeat_interleave`, `repeat`, `expand`+`reshape`) puts copy `j` of instance `b` at row
+`b·S + j` instead -/
+def replicateSite (usesBatchify : Bool) (x : Tens α) (S : Nat) : Tens α :=
+  if usesBatchify then batchify x [S]
+  else match x.shape with
+    | n :: rest => { shape := (n * S) :: rest, get := fun i => match i with | r :: t => x.get ((r / S) :: t) | [] => x.get [] }
+    | [] => x
+
+/-- `L2DActor.pre_decoder_hook`: encoder embeddings replicated for multi-start -/
+def l2dHidden (x : Tens α) (S : Nat) : Tens α := replicateSite Params.l2dHiddenUsesBatchify x S
+/-- `nonautoregressive/decoder.py:_multistart_batched_index` -/
+def narIndex (x : Tens α) (S : Nat) : Tens α := replicateSite Params.narIndexUsesBatchify x S
+/-- `MultiStageFFSPPolicy.pre_forward`: `td = batchify(td, num_starts)` -/
+def matnetTd (x : Tens α) (S : Nat) : Tens α := replicateSite Params.matnetTdUsesBatchify x S
+/-- `eas/decoder.py:forward_eas`: `td = batchify(td, num_starts + 1)` -/
+def easTd (x : Tens α) (S : Nat) : Tens α := replicateSite Params.easTdUsesBatchify x (S + 1)
+
 /-- `gather_by_index(src, idx, dim=1, squeeze)` for `src : [B, N, …]`, `idx : [B, S]` (an index `[B]` is
 the case `S = 1` after the `view`): `[B, S, …]` with entry `[b][s] = src[b][idx b s]`; the step dimension
 is squeezed away iff `idx.size(dim) == 1 and squeeze` (constants regenerated from the source). -/
